@@ -1031,14 +1031,7 @@ func (s *SecureChannel) sendRequestWithTimeout(
 	timer := time.NewTimer(timeout + timeoutLeniency)
 	defer timer.Stop()
 
-	select {
-	case <-ctx.Done():
-		s.popHandler(reqID)
-		return ctx.Err()
-	case <-s.disconnected:
-		s.popHandler(reqID)
-		return io.EOF
-	case msg := <-ch:
+	deliver := func(msg *MessageBody) error {
 		if msg.Err != nil {
 			if msg.Response() != nil {
 				_ = h(msg.Response()) // ignore result because msg.Err takes precedence
@@ -1046,10 +1039,32 @@ func (s *SecureChannel) sendRequestWithTimeout(
 			return msg.Err
 		}
 		return h(msg.Response())
+	}
+
+	// abandon stops waiting for the response and returns err, unless the
+	// dispatcher has already taken the handler. In that case the response is on
+	// its way into ch (the dispatcher's send into the buffered channel cannot
+	// block) and must still be processed: for an OpenSecureChannelResponse the
+	// dispatcher pauses until open() has returned, and if open() returned
+	// without consuming the response the receive gate would be locked after
+	// its final unlock and the dispatcher would never read again.
+	abandon := func(err error) error {
+		if _, ok := s.popHandler(reqID); ok {
+			return err
+		}
+		return deliver(<-ch)
+	}
+
+	select {
+	case <-ctx.Done():
+		return abandon(ctx.Err())
+	case <-s.disconnected:
+		return abandon(io.EOF)
+	case msg := <-ch:
+		return deliver(msg)
 	case <-timer.C:
 		verifPoint("request.timeoutBranch")
-		s.popHandler(reqID)
-		return ua.StatusBadTimeout
+		return abandon(ua.StatusBadTimeout)
 	}
 }
 
